@@ -19,7 +19,17 @@ def genScopedMsg (version dom : Nat) (kn : KnownMap) (foreign : List Nat) : G (M
     if k < 3 then
       -- (re)definition of a small id with a fresh layout
       let tid ← smallTid
-      let fs ← genFields version
+      -- now and then the same element ids and widths as before, one element moved between the IANA and an
+      -- enterprise registry (IPFIX): the latest announcement still wins
+      let fs ← (do
+        match known.lookup tid with
+        | some (.data old) =>
+          if version = 10 ∧ !old.isEmpty ∧ (← chance 1 2) then
+            let i ← below old.length
+            let pen ← bitsVal 32
+            pure (old.mapIdx fun j f => if j = i then { f with ent := if f.ent.isSome then none else some pen } else f)
+          else genFields version
+        | _ => genFields version)
       sets := sets ++ [.template [(tid, fs)] 0]
       known := (tid, Known.data fs) :: known.filter (fun e => e.1 != tid)
     else if k < 4 then
@@ -45,6 +55,32 @@ def genScopedMsg (version dom : Nat) (kn : KnownMap) (foreign : List Nat) : G (M
   let m0 : Msg := ⟨version, 0, ← bitsVal 32, ← bitsVal 32, ← bitsVal 32, dom, sets⟩
   pure ({ m0 with count := max (totalRecords m0) sets.length }, known, count, tnf)
 
+/-- the marker template (id 300): element 1 (octetDeltaCount → Bytes) in 4 bytes and element 2; announced again and
+    again with element 1 moved between the IANA registry and an enterprise one (same id, same width). A flow cut
+    with the latest announcement carries the counter exactly when the latest announcement was the IANA one. -/
+def markerTid : Nat := 300
+
+def genMarkerMsg (version dom : Nat) (kn : KnownMap) : G (Msg × KnownMap × List String) := do
+  let cur : Option (List SField) := match kn.lookup markerTid with | some (.data fs) => some fs | _ => none
+  let announce ← if cur.isNone then pure true else chance 2 3
+  let curEnt : Option Nat := match cur with | some (f :: _) => f.ent | _ => none
+  let newEnt : Option Nat ← if version = 10 ∧ (curEnt.isNone ∨ cur.isNone) ∧ (← chance 2 3) then (do pure (some (1 + (← below 60000)))) else pure none
+  let fs : List SField := if announce then [⟨1, 4, newEnt⟩, ⟨2, 4, none⟩] else cur.getD []
+  let kn' := if announce then (markerTid, Known.data fs) :: kn.filter (fun e => e.1 != markerTid) else kn
+  let v ← range 1 0xfffffff0
+  let nrec ← range 1 3
+  let recs : List (List SValue) := List.replicate nrec [⟨encBE 4 v, false⟩, ⟨encBE 4 7, false⟩]
+  -- the announcement before or after an unrelated set, the data after it (same message) or in a later one
+  let withData ← chance 2 3
+  let sets : List SSet := (if announce then [.template [(markerTid, fs)] 0] else []) ++ (if withData ∨ !announce then [.data markerTid fs recs 0] else [])
+  let m0 : Msg := ⟨version, 0, ← bitsVal 32, ← bitsVal 32, ← bitsVal 32, dom, sets⟩
+  let m := { m0 with count := max (totalRecords m0) sets.length }
+  let hasData := withData ∨ !announce
+  let expectBytes := match fs with | f :: _ => if f.ent.isNone then v else 0 | _ => 0
+  let exp := ["expect @res ok", "expect @count " ++ toString (if hasData then nrec else 0)] ++
+    (if hasData then ["expect @col * Bytes=" ++ toString expectBytes ++ " Packets=7"] else [])
+  pure (m, kn', exp)
+
 def genHistory (pipe : String) (n : Nat) : G (List String) := do
   let exps ← genExporters
   let domains ← listOf 3 (bitsVal 32)
@@ -65,6 +101,11 @@ def genHistory (pipe : String) (n : Nat) : G (List String) := do
       let sc : Scope := (ei, version, dom)
       let kn := (known.lookup sc).getD []
       let foreign := (known.filter (fun x => x.1 != sc)).flatMap (fun x => x.2.map (·.1))
+      if (← chance 1 5) then
+        let (m, kn', exp) ← genMarkerMsg version dom kn
+        known := (sc, kn') :: known.filter (fun x => x.1 != sc)
+        out := out ++ [pktLine pipe e clock (encode m)] ++ exp
+        continue
       let (m, kn', count, tnf) ← genScopedMsg version dom kn foreign
       known := (sc, kn') :: known.filter (fun x => x.1 != sc)
       -- an IPFIX message whose last set is broken (reserved id, impossible length): the datagram is refused,
